@@ -161,6 +161,7 @@ def _mpmc_part():
 
 SPEC = {
     "C14": {
+        "extra_props": ("Tso",),
         "parts": [
             {"name": "hp", "harness": "hazard", "model": "Hp", "gen": gen_hp_spread, "post": post_hp},
             {"name": "bsearch", "harness": "hazard", "model": "Hp", "gen": gen_bs},
